@@ -316,6 +316,7 @@ def removal_guards(repo, run, rule):
     fi, paths = merge_paths(repo)
     n = 0
     seen = set()
+    kinds = set()
     for p in paths:
         for e in p.events:
             if e.kind != 'call':
@@ -326,8 +327,10 @@ def removal_guards(repo, run, rule):
             if not hit:
                 continue
             key = (id(e.node))
-            ok = any((t == 'other.ayns.delete' and pol) or (t.endswith('.ayns.explicit_delete') and pol) for t, pol in e.facts)
+            guards = [t for t, pol in e.facts if pol and (t == 'other.ayns.delete' or t.endswith('.ayns.explicit_delete'))]
+            ok = bool(guards)
             if ok:
+                kinds.add((e.attr, guards[-1]))
                 if key not in seen:
                     run.ok(rule, tr.where(fi, e), e.callee[:100], 'control-dependent on a delete flag of the newer node')
             elif ('bad', key) not in seen:
@@ -338,8 +341,10 @@ def removal_guards(repo, run, rule):
         for e in p.events:
             if e.kind == 'store' and e.target.startswith('del self'):
                 run.violation(rule, tr.where(fi, e), e.target, 'deletion from the older tree outside the checked removal calls')
-    if len([k for k in seen if not isinstance(k, tuple)]) < 3:
-        raise AnalysisError('removal guards: expected >= 3 removal sites in ComposedNode.on_merge_impl, found %d' % len(seen))
+    if len(kinds) < 3 and not any(isinstance(k, tuple) for k in seen):
+        # the deleting-node filter, the removal of an emptied composed child and the removal of a deleted leaf (counted by
+        # what is removed under which flag, so that several call sites sharing one helper still count)
+        raise AnalysisError('removal guards: expected >= 3 guarded kinds of removal in ComposedNode.on_merge_impl, found %d' % len(kinds))
     # list pre-filter: filters the *newer* tree, keeps every non-deleting node
     li, evs, cb, cpaths = filter_callback(repo, 'ConfigList.ayns.on_merge_impl', 'other')
     for e in evs:
